@@ -46,12 +46,56 @@ def table_seeded():
     return "\n".join(out), n
 
 
+def table_asbuilt():
+    import sys
+    sys.path.insert(0, os.path.join(VERIF, "lib"))
+    import checks
+    claims = json.load(open(os.path.join(VERIF, "lib", "claims.json")))["claimed"]
+    kf = json.load(open(os.path.join(VERIF, "known_findings.json")))["findings"]
+    seeded = {}
+    for f in sorted(glob.glob(os.path.join(VERIF, "seeded", "*", "meta.json"))):
+        m = json.load(open(f))
+        seeded.setdefault(m["property"], []).append("%s: %s" % (m["id"], m["detection"]["result"]))
+    out = []
+    for pid in sorted(checks.CHECKS):
+        cfg = checks.CHECKS[pid]
+        cl = claims.get(pid, {})
+        parts = []
+        for pt in cfg["parts"]:
+            parts.append("`harness/%s.cpp` (%s; cases quick %s / thorough %s)" % (
+                pt["harness"], pt.get("flavour", "asan"), pt["cases"]["quick"], pt["cases"]["thorough"]))
+        ev = {}
+        try:
+            ev = json.load(open(os.path.join(VERIF, "evidence", pid + ".json")))
+        except Exception:
+            pass
+        cov = ev.get("coverage", {}) if isinstance(ev, dict) else {}
+        nfix = sum(1 for e in kf if e["property"] == pid and e["status"] == "fixed")
+        nopen = sum(1 for e in kf if e["property"] == pid and e["status"] == "open")
+        out.append("**%s — %s** (level: %s)" % (pid, cfg["title"], cfg["level"]))
+        out.append("")
+        out.append("* monitors: " + "; ".join(parts))
+        out.append("* technique: " + cl.get("technique", "-"))
+        req = cfg.get("require", {})
+        out.append("* a run is INCONCLUSIVE (exit 2) unless it observed: >= %s distinct non-trivial signatures; per-oracle minima %s; "
+                   "library reach probes %s" % (req.get("distinct", "-"),
+                                                json.dumps(req.get("oracles", {}).get("quick", {})).replace('"', ''),
+                                                ", ".join("`%s`" % x for x in req.get("probes", [])) or "-"))
+        if cov:
+            out.append("* last recorded run (%s): %s evaluations, %s distinct signatures" % (
+                ev.get("tier", cov.get("tier", "?")), cov.get("evaluations", "?"), cov.get("distinct_nontrivial", "?")))
+        out.append("* limits / trusted base: " + cl.get("note", "-"))
+        out.append("* findings: %d fixed, %d open; seeded changes: %s" % (nfix, nopen, "; ".join(seeded.get(pid, [])) or "-"))
+        out.append("")
+    return "\n".join(out)
+
+
 def main():
     p = os.path.join(VERIF, "DESIGN.md")
     s = open(p).read()
     fixes, nfix = table_fixes()
     seeded, nseed = table_seeded()
-    blocks = {"FINDINGS": table_findings(), "FIXES": fixes, "SEEDED": seeded}
+    blocks = {"FINDINGS": table_findings(), "FIXES": fixes, "SEEDED": seeded, "ASBUILT": table_asbuilt()}
     for k, v in blocks.items():
         b, e = "<!-- BEGIN %s -->" % k, "<!-- END %s -->" % k
         if b in s and e in s:
